@@ -344,6 +344,14 @@ func probes() []probe {
 					{Kind: stBurst, Cmds: [][]string{{"SET", "k1", "late", "POINT", "5", "6"}}}, {Kind: stRefCheck}}},
 		},
 		{
+			name: "shrink-during-backlog-copy", finding: "", status: "guard",
+			what: "a follower with an empty disk attaches to a leader with a 7 MB log over a link that delivers nothing for 2 s; while the leader is still copying the backlog, AOFSHRINK swaps the log; then the leader writes k1/late. The follower must be sent to the new log (the leader disconnects it) and end up with k1/late; a leader that does not know this connection yet leaves it on the old, unlinked file for ever",
+			spec: caseSpec{Init: initEmpty, FirstSync: true,
+				Pre: [][]string{{"SET", "k1", "a", "POINT", "1", "1"}},
+				Steps: []step{{Kind: stShrinkBacklog, Ms: 2000, Cmds: padsCycling("pad", 80, 88000, 4),
+					LCmds: [][]string{{"SET", "k1", "late", "POINT", "5", "6"}}}}},
+		},
+		{
 			name: "split-same-length", finding: "", status: "guard",
 			what: "follower detached, both sides then log the same number of bytes (different commands), follower re-attached: the resume position must be found by checksum, not by size",
 			spec: caseSpec{Init: initEmpty, FirstSync: true, Settle: true,
